@@ -46,6 +46,10 @@ class Sim(object):
         self.npid = 0
         self.case = None
         self.log = []          # everything that goes into the event-log digest
+        self.simtime_total = 0.0   # simulated seconds covered by all cases run on this Sim
+        self.ops_total = 0
+        self.sims_total = 0
+        self._clock_start = None
 
     # ---- world -------------------------------------------------------------
     def setup(self, case):
@@ -60,8 +64,10 @@ class Sim(object):
         for m in K.mounts:
             if not os.path.isdir(self.root + m) or os.path.islink(self.root + m):
                 raise HarnessError('mount point %r is not a directory in the world' % m)
+        self.account_time()
         ck = case.get('clock', {})
         P.CLOCK.now = parse_dt(ck.get('start', '2024-01-01T12:00:00.000000'))
+        self._clock_start = P.CLOCK.now
         P.CLOCK.tick = _dt.timedelta(microseconds=ck.get('tick_us', 137))
         P.CLOCK.readings = []
         P.RANDOM.script = []
@@ -69,6 +75,11 @@ class Sim(object):
         P.RANDOM.calls = 0
         self.npid = 0
         self.log = []
+
+    def account_time(self):
+        if self._clock_start is not None:
+            self.simtime_total += abs((P.CLOCK.now - self._clock_start).total_seconds())
+            self._clock_start = None
 
     def set_faults(self, faults):
         K.faults = [dict(f) for f in faults]
@@ -108,6 +119,8 @@ class Sim(object):
         r.clock = [v for (_pid, v) in P.CLOCK.readings[c0:]]
         r.replies = list(getattr(p.stdio.stdin, 'replies', []))
         self.log.append(r.as_log())
+        self.ops_total += r.nops
+        self.sims_total += 1
         if K.bypass:
             raise HarnessError('call(s) bypassed the seam: %r' % (K.bypass[:5],))
         return r
